@@ -69,17 +69,18 @@ def committedOf (leo : Nat) (ck : Option Ckpt) (minISR : Nat) : Nat :=
 def localRet (ch : Chan) : Nat := match ch.ret with | some r => r.loc | none => 0
 
 /-- the request `readLocalCommitted` hands to the adapter, or an early answer.
-    The last early answer (`committed = 0`) is the repair of the "MaxSeq 0 means
-    uncapped" leak: without it a forward read from sequence 0 with nothing
-    committed returned the uncommitted tail. -/
+    The normalisation of a forward `FromSeq = 0` to 1 is the repair of the
+    "MaxSeq 0 means uncapped" leak: without it a forward read from sequence 0 with
+    nothing committed slipped under the `FromSeq > committed` guard and returned
+    the uncommitted tail. -/
 def clampReq (req : Req) (committed floor : Nat) : Req ⊕ RRes :=
   let minS := Nat.max req.minSeq (nextSeq floor)
   let maxS := if req.maxSeq = 0 ∨ req.maxSeq > committed then committed else req.maxSeq
-  if req.reverse = false ∧ req.fromSeq > committed then .inr ⟨[], req.fromSeq⟩
+  let from0 := if req.reverse = false ∧ req.fromSeq = 0 then 1 else req.fromSeq
+  if req.reverse = false ∧ from0 > committed then .inr ⟨[], from0⟩
   else
-    let fromS := if req.reverse = true ∧ req.fromSeq > committed then committed else req.fromSeq
-    if committed = 0 then .inr ⟨[], fromS⟩
-    else .inl ⟨fromS, maxS, minS, req.limit, req.maxBytes, req.reverse⟩
+    let fromS := if req.reverse = true ∧ from0 > committed then committed else from0
+    .inl ⟨fromS, maxS, minS, req.limit, req.maxBytes, req.reverse⟩
 
 /-- `channels.Service.readLocalCommitted` -/
 def readLocal (ch : Chan) (req : Req) (rts minISR : Nat) : Chan × Except Err RRes :=
